@@ -1,23 +1,31 @@
 (* Props/C12.v — property C12: validation results do not depend on delimiters or line layout.
    Statements only (proofs: Proofs/C12_reader.v, C12_lemmas.v).
 
-   PARTIAL.  Proved here, for the reader (segmentation, segment construction, every envelope / control-number /
-   counter / HL / LX check and its source position): the same document written with any two admissible delimiter
-   triples and any two line-break conventions, fed in any chunking, is read as the same segments (ISA16, which IS a
-   delimiter, apart) with the same errors at the same positions.  Hypothesis ctl_simple (the elements the reader
-   interprets carry one component) is the part of "for all documents" the theorem does not cover.  The remaining
-   pipeline takes the parsed segments as input.  For two of its layers the delimiters are proved irrelevant
-   (Proofs/C12_layers.v): segment validation (C12_validation_delims_irrelevant) and the walker
-   (C12_walker_delims_irrelevant), each under a computable hypothesis saying that no composite value is read where the
-   map expects a simple element (without it the offending VALUE is quoted in an error text with the separator of the
-   source, so the statement is false: Witness12.* are the proved counterexamples).  The acknowledgement bodies are
-   functions of the error tree alone (Props/C05.v).  End to end the check still compares complete runs of the
-   implementation on re-encoded documents. *)
+   Proved, layer by layer and END TO END.
+   Reader (segmentation, segment construction, every envelope / control-number / counter / HL / LX check and its
+   source position): the same document written with any two admissible delimiter triples and any two line-break
+   conventions, fed in any chunking, is read as the same segments (ISA16, which IS a delimiter, apart) with the same
+   errors at the same positions (C12_reader_independent_partial; hypothesis ctl_simple: the elements the reader
+   interprets carry one component).  Segment validation and the walker: C12_validation_delims_irrelevant,
+   C12_walker_delims_irrelevant, each under a computable hypothesis saying that no composite value is read where the
+   map expects a simple element (necessary: Witness12).
+   End to end (Spec/C12_doc_spec.v, Proofs/C12_doc_*.v): C12_pipeline_independent — for every environment, clock and
+   document (15 header fields + any body), any two admissible triples and line conventions: x12n_document with the
+   acknowledgement sink returns the SAME verdict, writes the SAME acknowledgement text, and makes the same handler
+   calls up to the delimiters the segment objects carry (strip_dev), provided the layer hypotheses hold along the
+   run (computable doc_layers_ok, implied by "every element single valued": C12_driver_independent_plain) and the
+   ISA segment validates alike under both triples (isa_valid_same: ISA16 is validated as DATA against the character
+   set, so under the basic set a '>' separator draws an error a ':' does not — proved necessary).  The 997 / 999 bodies
+   do not depend on the source delimiters at all, whatever the echoed values.  Each hypothesis has a machine-checked
+   counterexample (Proofs/C12_doc_cex.v).
+   PARTIAL: the HTML report prints segments with the source's delimiters (by design) and the XML sink was not
+   examined; the hypotheses are sufficient and individually necessary, not a characterisation.  The check still
+   compares complete runs of the implementation on re-encoded documents. *)
 From Coq Require Import String.
 From PX.Lib Require Import Base PyStr.
-From PX.Model Require Import Path Segment Raw Reader MapLoad MapTree Element Walker.
-From PX.Spec Require Import C01_spec C12_spec C12b_spec.
-From PX.Proofs Require Import C01_roundtrip C12_reader C12_layers.
+From PX.Model Require Import Path Segment Raw Reader MapLoad MapTree Element Walker MapEnv Driver Pipeline.
+From PX.Spec Require Import C01_spec C12_spec C12b_spec C12_doc_spec.
+From PX.Proofs Require Import C01_roundtrip C12_reader C12_layers C12_doc_run C12_doc_pipeline.
 
 (* a parsed segment does not remember the delimiters it was written with *)
 Theorem C12_segment_delims_irrelevant :
@@ -75,3 +83,40 @@ Theorem C12_walker_delims_irrelevant :
     w1 = w2 /\ r1 = r2 /\ map strip_delims ev1 = map strip_delims ev2.
 Proof. exact walker_delims_irrelevant. Qed.
 Print Assumptions C12_walker_delims_irrelevant.
+
+(* END TO END: verdict, acknowledgement text and handler calls of x12n_document do not depend on delimiters / layout *)
+Theorem C12_pipeline_independent :
+  forall load idx clk htime dtd d1 d2 conv1 conv2 f body,
+    distinct_delims d1 = true -> distinct_delims d2 = true ->
+    delims_not_break d1 = true -> delims_not_break d2 = true ->
+    is_break conv1 = true -> is_break conv2 = true ->
+    isa_fields_ok f = true ->
+    clean_seg d1 (isa_for d1 f) = true -> clean_seg d2 (isa_for d2 f) = true ->
+    body_ok d1 body = true -> body_ok d2 body = true ->
+    forallb id_starts_plain body = true -> forallb ctl_simple body = true ->
+    isa_valid_same load d1 d2 f ->
+    doc_layers_ok load idx (encode d1 conv1 (isa_for d1 f :: body)) = true ->
+    let o1 := run_pipeline_gen load idx clk htime dtd ack_only (encode d1 conv1 (isa_for d1 f :: body)) in
+    let o2 := run_pipeline_gen load idx clk htime dtd ack_only (encode d2 conv2 (isa_for d2 f :: body)) in
+    o_result o1 = o_result o2 /\ o_ack o1 = o_ack o2 /\ map strip_dev (o_trace o1) = map strip_dev (o_trace o2).
+Proof. exact pipeline_ack_delims_layout_independent. Qed.
+Print Assumptions C12_pipeline_independent.
+
+(* the layer hypotheses follow from "every element of the body is single valued" *)
+Theorem C12_driver_independent_plain :
+  forall load idx d1 d2 conv1 conv2 f body,
+    distinct_delims d1 = true -> distinct_delims d2 = true ->
+    delims_not_break d1 = true -> delims_not_break d2 = true ->
+    is_break conv1 = true -> is_break conv2 = true ->
+    isa_fields_ok f = true ->
+    clean_seg d1 (isa_for d1 f) = true -> clean_seg d2 (isa_for d2 f) = true ->
+    body_ok d1 body = true -> body_ok d2 body = true ->
+    forallb id_starts_plain body = true -> forallb ctl_simple body = true ->
+    isa_valid_same load d1 d2 f ->
+    body_plain body = true ->
+    snd (run_document_gen load idx (encode d1 conv1 (isa_for d1 f :: body))) =
+    snd (run_document_gen load idx (encode d2 conv2 (isa_for d2 f :: body))) /\
+    map strip_dev (fst (run_document_gen load idx (encode d1 conv1 (isa_for d1 f :: body)))) =
+    map strip_dev (fst (run_document_gen load idx (encode d2 conv2 (isa_for d2 f :: body)))).
+Proof. exact driver_delims_layout_independent_plain. Qed.
+Print Assumptions C12_driver_independent_plain.
